@@ -1012,8 +1012,95 @@ pub fn raw_writer_strategy() -> impl Strategy<Value = RawWriter> {
     (prop::collection::vec((prop::bool::weighted(0.4), prop::option::weighted(0.75, style), prop::sample::select(vec!["", "x", "text ", "\n", "é"]).prop_map(|s| s.to_string())), 1..=14), prop::bool::ANY).prop_map(|(ops, stderr)| RawWriter { ops, stderr })
 }
 
+// ---- a target that is a device but not a terminal ---------------------------------------------------------------
+
+/// The target stream is redirected to a character device that is no terminal (here: the full device, reached through
+/// a symbolic link in the scratch directory; `> /dev/null` in a unit file is the everyday case). "Only when the target
+/// is a TTY" is about terminals: a tty_only appender stays silent - and with this device that is observable, because
+/// every byte written to it is refused: all appends of a silent appender succeed.
+#[derive(Serialize, Deserialize, Debug, Clone)]
+pub struct Device {
+    pub target_stderr: bool,
+    pub tty_only: bool,
+    pub via_config: bool,
+    pub force_colour: bool,
+}
+
+pub fn device_child(c: &Device) -> i32 {
+    let target = if c.target_stderr { Target::Stderr } else { Target::Stdout };
+    let app: Box<dyn Append> = if c.via_config {
+        use serde_value::Value as V;
+        let s = |x: &str| V::String(x.to_string());
+        let mut m = std::collections::BTreeMap::new();
+        m.insert(s("target"), s(if c.target_stderr { "stderr" } else { "stdout" }));
+        m.insert(s("tty_only"), V::Bool(c.tty_only));
+        match log4rs::config::Deserializers::default().deserialize::<dyn Append>("console", V::Map(m)) {
+            Ok(a) => a,
+            Err(_) => return 5,
+        }
+    } else {
+        Box::new(ConsoleAppender::builder().target(target).tty_only(c.tty_only).encoder(Box::new(PatternEncoder::new("{h({l})} {m}{n}"))).build())
+    };
+    let mut errors = 0;
+    for r in records() {
+        let text = r.message();
+        if app.append(&log::Record::builder().args(format_args!("{}", text)).level(r.level()).target("t").build()).is_err() {
+            errors += 1;
+        }
+    }
+    10 + errors
+}
+
+pub fn check_device(tmp: &Path, c: &Device, obs: &mut Obs) -> CaseResult {
+    if !crate::fsx::full_device_ok() {
+        obs.class("device:no-full-device(skipped)");
+        return Ok(());
+    }
+    let exe = std::env::current_exe().map_err(|e| Failure { sig: "C18:harness".into(), msg: e.to_string() })?;
+    let dir = scratch(tmp, "c18d");
+    let file = dir.join("device.json");
+    std::fs::write(&file, serde_json::to_string(c).unwrap()).unwrap();
+    let link = dir.join("device");
+    std::os::unix::fs::symlink("/dev/full", &link).map_err(|e| Failure { sig: "C18:harness".into(), msg: e.to_string() })?;
+    let dev = std::fs::OpenOptions::new().write(true).open(&link).map_err(|e| Failure { sig: "C18:harness".into(), msg: e.to_string() })?;
+    let mut cmd = Command::new(exe);
+    cmd.arg("child").arg("c18dev").arg(&file).env_remove("NO_COLOR").env_remove("CLICOLOR").env_remove("CLICOLOR_FORCE").stdin(Stdio::null());
+    if c.force_colour {
+        cmd.env("CLICOLOR_FORCE", "1");
+    }
+    if c.target_stderr {
+        cmd.stderr(Stdio::from(dev)).stdout(Stdio::piped());
+    } else {
+        cmd.stdout(Stdio::from(dev)).stderr(Stdio::piped());
+    }
+    let out = cmd.output().map_err(|e| Failure { sig: "C18:harness".into(), msg: e.to_string() });
+    let _ = std::fs::remove_dir_all(&dir);
+    let out = out?;
+    let code = out.status.code().unwrap_or(-1);
+    ensure!((10..=15).contains(&code), "C18:child-failed", "child exited with {:?} (stderr/stdout of the other stream: {:?})", out.status.code(), String::from_utf8_lossy(if c.target_stderr { &out.stdout } else { &out.stderr }));
+    let other = if c.target_stderr { &out.stdout } else { &out.stderr };
+    ensure!(other.is_empty(), "C18:wrong-stream", "the stream that is not the target carries {} bytes", other.len());
+    obs.sub_evals += 1;
+    obs.nontrivial = c.tty_only;
+    obs.class(if c.tty_only { "device:tty_only" } else { "device:always" });
+    if c.tty_only {
+        ensure!(code == 10, "C18:tty-only:device", "tty_only appender whose target is a character device that is no terminal: {} of 5 appends reported an error, i.e. the appender wrote to it", code - 10);
+    }
+    Ok(())
+}
+
 pub fn run(run: &Run) {
     let tmp = run.tmp.clone();
+    {
+        let t = tmp.clone();
+        let f = move |c: &Device, o: &mut Obs| check_device(&t, c, o);
+        run.run_replays::<Device>("device", &f);
+        if run.worker.0 == 1 % run.worker.1 {
+            for k in 0..16u8 {
+                run.eval_one("device", &Device { target_stderr: k & 1 == 1, tty_only: k & 2 == 2, via_config: k & 4 == 4, force_colour: k & 8 == 8 }, &f);
+            }
+        }
+    }
     {
         let t = tmp.clone();
         let f = move |c: &RawWriter, o: &mut Obs| check_raw_writer(&t, c, o);
@@ -1156,6 +1243,13 @@ pub fn replay(part: &str, case: serde_json::Value) -> Option<CaseResult> {
         }
         "styles" | "style-pairs" => Some(check_style(&serde_json::from_value(case).ok()?, &mut Obs::default())),
         "interleave" => Some(check_interleave(&serde_json::from_value(case).ok()?, &mut Obs::default())),
+        "device" => {
+            let tmp = std::env::temp_dir().join(format!("lv-replay-{}", std::process::id()));
+            std::fs::create_dir_all(&tmp).ok()?;
+            let r = check_device(&tmp, &serde_json::from_value(case).ok()?, &mut Obs::default());
+            let _ = std::fs::remove_dir_all(&tmp);
+            Some(r)
+        }
         "raw-writer" => {
             let tmp = std::env::temp_dir().join(format!("lv-replay-{}", std::process::id()));
             std::fs::create_dir_all(&tmp).ok()?;
@@ -1184,7 +1278,7 @@ pub fn replay(part: &str, case: serde_json::Value) -> Option<CaseResult> {
 pub fn meta() -> EvidenceMeta {
     EvidenceMeta {
         level: "exploration",
-        rule: "matrix (exhaustive every run): NO_COLOR, CLICOLOR, CLICOLOR_FORCE each in {unset,\"0\",set (spelled 1/true/yes/on/2/TRUE/x)} x stdout in {pty,pipe} x stderr in {pty,pipe} x target x tty_only = 432 child processes, the parent allocates raw-mode ptys with openpty and reads both streams to EOF; the child ends with _exit right after its last append (no farewell flush); per cell the builder is told tty_only before or after the target, the encoder may refuse one record in the middle (later records must still appear), a generated pattern (a highlight group around generated structure, width specs around highlights, nested groups) and five records, one per level; oracle: nothing on the non-target stream; nothing on the target if tty_only and the target is not a terminal, else the reference rendering of the five records after stripping escape sequences; escape sequences (each matching ESC [ digits(;digits)* m) present iff colour is enabled, and then exactly one per style request of the pattern, in its place between the text pieces by the statement's cascade (cells with NO_COLOR=\"0\" or CLICOLOR_FORCE=\"0\" accept both readings), last sequence a reset. Every cell carries a distractor environment (TERM=dumb / unset / empty, FORCE_COLOR, COLORTERM, CI, look-alike names) that has no say in the policy; a third of the cells build the appender through the console deserializer. threads: 2-8 threads log 12-40 rounds of the five records through ONE appender at the same time (slow Display), colour forced and disabled, pipe and pty: every record arrives whole, the right number of times. raw-writer: the public ConsoleWriter used directly (colour forced on a pipe): generated sequences of style requests and text through the writer itself and through lock(), few distinct styles so that the same style recurs: every request yields one sequence that sets exactly the requested attributes from any prior state, the text in between is unchanged. literal-args (exhaustive, 60 children): a sixth record whose message is an argument-free literal (short, 4 kB after a line break, 9 kB single line, empty, multi-byte) x target x pty/pipe x {m} / {m}{n} / {h({m})}{n}; styles (exhaustive): AnsiWriter<Vec<u8>>::set_style for all 243 styles after a previous style: exactly one well-formed SGR sequence which a harness SGR interpreter maps from any prior state to exactly the requested attributes; random style pairs and write/set_style interleavings (bytes unchanged). non-trivial = a cell where tty-ness and the colour decision disagree or tty_only meets a pipe / NO_COLOR; a style with all three attributes set".into(),
+        rule: "matrix (exhaustive every run): NO_COLOR, CLICOLOR, CLICOLOR_FORCE each in {unset,\"0\",set (spelled 1/true/yes/on/2/TRUE/x)} x stdout in {pty,pipe} x stderr in {pty,pipe} x target x tty_only = 432 child processes, the parent allocates raw-mode ptys with openpty and reads both streams to EOF; the child ends with _exit right after its last append (no farewell flush); per cell the builder is told tty_only before or after the target, the encoder may refuse one record in the middle (later records must still appear), a generated pattern (a highlight group around generated structure, width specs around highlights, nested groups) and five records, one per level; oracle: nothing on the non-target stream; nothing on the target if tty_only and the target is not a terminal, else the reference rendering of the five records after stripping escape sequences; escape sequences (each matching ESC [ digits(;digits)* m) present iff colour is enabled, and then exactly one per style request of the pattern, in its place between the text pieces by the statement's cascade (cells with NO_COLOR=\"0\" or CLICOLOR_FORCE=\"0\" accept both readings), last sequence a reset. Every cell carries a distractor environment (TERM=dumb / unset / empty, FORCE_COLOR, COLORTERM, CI, look-alike names) that has no say in the policy; a third of the cells build the appender through the console deserializer. threads: 2-8 threads log 12-40 rounds of the five records through ONE appender at the same time (slow Display), colour forced and disabled, pipe and pty: every record arrives whole, the right number of times. device (16 children): the target redirected to a character device that is no terminal (the full device through a symbolic link): a tty_only appender stays silent, i.e. all its appends succeed; raw-writer: the public ConsoleWriter used directly (colour forced on a pipe): generated sequences of style requests and text through the writer itself and through lock(), few distinct styles so that the same style recurs: every request yields one sequence that sets exactly the requested attributes from any prior state, the text in between is unchanged. literal-args (exhaustive, 60 children): a sixth record whose message is an argument-free literal (short, 4 kB after a line break, 9 kB single line, empty, multi-byte) x target x pty/pipe x {m} / {m}{n} / {h({m})}{n}; styles (exhaustive): AnsiWriter<Vec<u8>>::set_style for all 243 styles after a previous style: exactly one well-formed SGR sequence which a harness SGR interpreter maps from any prior state to exactly the requested attributes; random style pairs and write/set_style interleavings (bytes unchanged). non-trivial = a cell where tty-ness and the colour decision disagree or tty_only meets a pipe / NO_COLOR; a style with all three attributes set".into(),
         assumptions: vec!["highlight colours themselves are not asserted (documentation and code disagree)".into(), "ptys from libc::openpty; without them the check exits 2, it does not pass".into()],
         mutants_caught: vec![],
     }
